@@ -23,7 +23,7 @@ Theorem C04_store_charges_quote_core : forall cx s m s' d, step cx s (OStore m) 
     (payer = macc ORDER -> forall a, balance s' a = balance s a) /\
     (forall a, a <> payer -> a <> macc ORDER -> bal s' !! a = bal s !! a) /\
     (forall k, k <> oid -> orders s' !! k = orders s !! k).
-Proof. exact store_charges_quote_core. Qed.
+Proof. first [exact store_charges_quote_core | apply store_charges_quote_core]. Qed.
 Print Assumptions C04_store_charges_quote_core.
 
 Theorem C04_store_charges_quote_partial : forall cx s m s' d, step cx s (OStore m) = (s', OutTx COk d) ->
@@ -33,7 +33,7 @@ Theorem C04_store_charges_quote_partial : forall cx s m s' d, step cx s (OStore 
     payer <> macc ORDER /\
     balance s' payer = balance s payer - o_amount o /\ balance s' (macc ORDER) = balance s (macc ORDER) + o_amount o /\
     (forall a, a <> payer -> a <> macc ORDER -> bal s' !! a = bal s !! a).
-Proof. exact store_charges_quote_partial. Qed.
+Proof. first [exact store_charges_quote_partial | apply store_charges_quote_partial]. Qed.
 Print Assumptions C04_store_charges_quote_partial.
 
 Theorem C04_first_complete_deposits_partial : forall cx s c p oid cid sz ok s' d o, step cx s (OComplete c p oid cid sz ok) = (s', OutTx COk d) ->
@@ -41,7 +41,7 @@ Theorem C04_first_complete_deposits_partial : forall cx s c p oid cid sz ok s' d
   (forall sid sh, shard_by_sp s o p = Some (sid, sh) -> sh_status sh = ShardWaiting) ->
   o_op o <> 2 -> p <> macc ORDER -> p <> macc MARKET ->
   balance s' (macc ORDER) = balance s (macc ORDER) - o_amount o /\ balance s' (macc MARKET) = balance s (macc MARKET) + o_amount o.
-Proof. exact first_complete_deposits_partial. Qed.
+Proof. first [exact first_complete_deposits_partial | apply first_complete_deposits_partial]. Qed.
 Print Assumptions C04_first_complete_deposits_partial.
 
 Theorem C04_first_complete_deposits_refuted :
@@ -50,7 +50,7 @@ Theorem C04_first_complete_deposits_refuted :
     (forall sid sh, shard_by_sp s o p = Some (sid, sh) -> sh_status sh = ShardWaiting) /\
     p <> macc ORDER /\ p <> macc MARKET /\
     ~ (balance s' (macc ORDER) = balance s (macc ORDER) - o_amount o /\ balance s' (macc MARKET) = balance s (macc MARKET) + o_amount o).
-Proof. exact first_complete_deposits_refuted. Qed.
+Proof. first [exact first_complete_deposits_refuted | apply first_complete_deposits_refuted]. Qed.
 Print Assumptions C04_first_complete_deposits_refuted.
 
 Theorem C04_cancel_order_post : forall cx oid s s' o payer, cancel_order cx oid s = Ok tt s' -> orders s !! oid = Some o ->
@@ -71,14 +71,14 @@ Theorem C04_cancel_order_post : forall cx oid s s' o payer, cancel_order cx oid 
                         models s' = models s
       end
   end.
-Proof. exact cancel_order_post. Qed.
+Proof. first [exact cancel_order_post | apply cancel_order_post]. Qed.
 Print Assumptions C04_cancel_order_post.
 
 Theorem C04_step_conserves : forall cx s op, no_staking op = true ->
   sum_bal (fst (step cx s op)) - sum_bal s = supply (fst (step cx s op)) - supply s.
-Proof. exact step_conserves. Qed.
+Proof. first [exact step_conserves | apply step_conserves]. Qed.
 Print Assumptions C04_step_conserves.
 
 Theorem C04_step_supply : forall cx s op, op <> OBeginBlock -> supply (fst (step cx s op)) = supply s.
-Proof. exact step_supply. Qed.
+Proof. first [exact step_supply | apply step_supply]. Qed.
 Print Assumptions C04_step_supply.
